@@ -75,9 +75,7 @@ class RaceRun(Run):
             # the sequential schedule A;B is the reference for every schedule of the same calls (it is always explored first: every
             # pre-empted path is an alternative of it)
             self.seq_reference[key] = (n_ok, after)
-            if n_ok == 0:
-                self.viol("race:none-accepted:action=%s" % kind, "%s on the open act %s was refused for both callers even one after the other" % (kind, t["nid"]))
-            return
+            return   # (an action the act refuses even without a race - a back whose target does not fit, an error whose code the declared outputs cut away - is not the race clause's subject)
         if key not in self.seq_reference:
             raise Unsupported("race: sequential reference missing for %r" % (key,))
         ref_ok, ref_after = self.seq_reference[key]
